@@ -1,9 +1,12 @@
 package main
 
 import (
+	"crypto/sha1"
 	"fmt"
 	"go/types"
 	"math/big"
+	"sort"
+	"strings"
 
 	"golang.org/x/tools/go/ssa"
 )
@@ -40,6 +43,26 @@ func (e *Exec) report(clause, finding string, negated *Term) {
 	switch r {
 	case "unsat":
 		e.st.Unsat++
+		if n := e.cfg.xcheckEvery; n > 0 && !negated.IsConst() {
+			roots := append(e.slicePC(negated), negated)
+			hs := make([]string, len(roots))
+			for i, r := range roots {
+				x := e.tt.Hash(r)
+				hs[i] = string(x[:])
+			}
+			sort.Strings(hs)
+			key := sha1.Sum([]byte(strings.Join(hs, "")))
+			if (int(key[0])<<8|int(key[1]))%n == 0 {
+				if _, done := xchecked.LoadOrStore(key, true); !done {
+					ops, contra := e.solver.CrossCheck(roots)
+					e.st.XChecked++
+					e.st.XOpinions += ops
+					if contra != "" {
+						e.st.XDisagree = append(e.st.XDisagree, contra)
+					}
+				}
+			}
+		}
 	case "sat":
 		e.st.Sat++
 		ch := map[string]int{}
